@@ -408,12 +408,54 @@ def run(tier, seed):
                         ok = False
                 memo[key] = ok
                 return ok
+            LIFECYCLE = {"lha_reader_new", "lha_reader_free"}
+
+            def coupled(fname):
+                """alternative to a reset: the field is a cache of one of the persistent lists - written only where that list is written, and
+                every change of the list (outside the reader's constructor/destructor) is accompanied by a write of the field: one that
+                dominates the list store, or one that every path from the list store to a return passes.  Returns (list name, None) or
+                (None, reason)."""
+                why = "it is not written together with a persistent list"
+                for L in sorted(PERSISTENT):
+                    fst = [st for g in mod.defined() if g.cname not in LIFECYCLE for st in stores_to_field(mod, RD, fname, [g])]
+                    if not fst:
+                        continue
+                    lfn = {}
+                    for g in mod.defined():
+                        if g.cname in LIFECYCLE:
+                            continue
+                        ls = stores_to_field(mod, RD, L, [g])
+                        if ls:
+                            lfn[g.name] = (g, ls)
+                    if not lfn or any(st.fn.name not in lfn for st in fst):
+                        continue
+                    bad = None
+                    for g, ls in lfn.values():
+                        Fg = ctx.facts(g)
+                        fs = [st for st in fst if st.fn is g]
+                        cut = set()
+                        for st in fs:
+                            cut |= {(st.block.id, x) for x in st.block.succs} | ({(st.block.id, "ret")} if not st.block.succs else set())
+                        for sl in ls:
+                            if any(st.block.id == sl.block.id or g.dominates(st.block.id, sl.block.id) for st in fs):
+                                continue
+                            if fs and not any((r.block.id, "ret") not in cut and (r.block.id == sl.block.id or Fg.reaches_avoiding(sl.block.id, r.block.id, cut)) for r in rets(g)):
+                                continue
+                            bad = "reader->%s changes at %s without reader->%s being written on that path" % (L, sl.where().split(" <- ")[0], fname)
+                    if bad is None:
+                        return L, None
+                    why = bad
+                return None, why
             for fname in sorted(scoped):
                 w = sorted({st.fn.cname for st in scoped[fname]})
                 ok = resets(nf6, fname)
+                L, why = (None, None) if ok else coupled(fname)
+                if L:
+                    rep.ok(rid, "reader->%s is a cache of the persistent list reader->%s: written only where the list is, and at every change of the list" % (fname, L), None, nf6.file)
+                    continue
                 rep.check(rid, ok, "reader->%s (written beneath a decode operation in %s) is reset on every path through lha_reader_next_file" % (fname, ", ".join(w)), nf6.file,
                           None if ok else "some path through lha_reader_next_file (and the helpers it calls with the reader) neither stores 0 to the field nor finds it 0: "
-                          "what a decode operation on one member left there is seen by the next", function=nf6.cname, obj="reset-" + fname)
+                          "what a decode operation on one member left there is seen by the next; nor is it kept in step with a persistent list (%s)" % why, function=nf6.cname, obj="reset-" + fname)
             for fname, why in sorted(PERSISTENT.items()):
                 rep.ok(rid, "reader->%s persists across members by design: %s" % (fname, why), None, nf6.file)
 
